@@ -47,6 +47,15 @@ CONC = {
     },
 }
 ABS_LEAF = {("a", "x", "m", "t"): 0, ("a", "y"): 1, ("b", "x"): 2}
+# assigning a plain text to an intermediate element: (chain assigned, chain of the leaf the text lands in)
+ASSIGN = {
+    "seg": [(["pid_3"], ["pid_3", "cx_1"]), (["pid_3", "cx_4"], ["pid_3", "cx_4", "hd_1"]), (["pid_5"], ["pid_5", "xpn_1", "fn_1"])],
+    "fld": [(["cx_4"], ["cx_4", "hd_1"]), (["cx_6"], ["cx_6", "hd_1"])],
+    "msg": [(["pid", "pid_3"], ["pid", "pid_3", "cx_1"]), (["pid", "pid_3", "cx_4"], ["pid", "pid_3", "cx_4", "hd_1"]),
+            (["pid", "pid_5"], ["pid", "pid_5", "xpn_1", "fn_1"]), (["evn", "evn_2"], ["evn", "evn_2", "ts_1"])],
+    "grp": [(["oml_o33_patient", "pid", "pid_3"], ["oml_o33_patient", "pid", "pid_3", "cx_1"]),
+            (["oml_o33_specimen", "spm", "spm_2"], ["oml_o33_specimen", "spm", "spm_2", "eip_1", "ei_1"])],
+}
 READ_HOWS = ["get", "er7", "value", "len", "iter", "repr", "long", "upper", "index", "twice", "root_er7",
              "root_validate", "root_repr", "root_iter", "children_get"]
 
@@ -168,6 +177,8 @@ def run_ops(kind, version, strict, ops, record_from):
         try:
             if op[0] == "R":
                 do_read(root, conc, op[1], op[2])
+            elif op[0] == "A":
+                do_write(root, ASSIGN[kind][op[1]][0], op[2])
             else:
                 do_write(root, conc["L"][op[1]], op[2])
         except Exception as ex:
@@ -176,6 +187,9 @@ def run_ops(kind, version, strict, ops, record_from):
         if k >= record_from:
             if op[0] == "R":
                 e = {"op": "Read", "path": designators(op[1]), "how": op[2], "v": [], "pos": []}
+            elif op[0] == "A":
+                e = {"op": "Assign", "path": designators(ASSIGN[kind][op[1]][0]), "leafpath": designators(ASSIGN[kind][op[1]][1]),
+                     "how": "setattr", "v": cps(op[2]), "pos": []}
             else:
                 e = {"op": "Write", "path": designators(conc["L"][op[1]]), "how": "setattr", "v": cps(op[2]),
                      "pos": conc["pos"][op[1]], "leaf": op[1]}
@@ -197,7 +211,7 @@ def _chunk(args):
     return out
 
 
-def graph_jobs(ctx, rnd, conc, reads_per_state):
+def graph_jobs(ctx, rnd, conc, reads_per_state, kind=None):
     r, nodes, edges = tlc.dump_graph("LazyMC", "LazyMC.cfg", workers=4, timeout=600)
     if r.violated or not r.completed:
         ctx.machinery_failure("LazyMC violates its own law %r\n%s" % (r.violated, r.raw[-1500:]))
@@ -232,7 +246,8 @@ def graph_jobs(ctx, rnd, conc, reads_per_state):
     for u, p in path.items():
         allreads = [("R", c, h) for c in chains for h in READ_HOWS]
         rnd.shuffle(allreads)
-        for op in allreads[:reads_per_state] + [("W", i, v) for i in range(3) for v in ("1", "2")]:
+        assigns = [("A", i, v) for i in range(len(ASSIGN.get(kind, []))) for v in ("2020",)]
+        for op in allreads[:reads_per_state] + [("W", i, v) for i in range(3) for v in ("1", "2")] + assigns:
             # reads sprinkled before the writes of the prefix: the traversal machinery has hidden state
             pre = []
             for w in p:
@@ -243,7 +258,7 @@ def graph_jobs(ctx, rnd, conc, reads_per_state):
     return jobs
 
 
-def walk_jobs(rnd, conc, n, depth):
+def walk_jobs(rnd, conc, n, depth, kind=None):
     chains = []
     for c in conc["L"]:
         for k in range(1, len(c) + 1):
@@ -254,7 +269,9 @@ def walk_jobs(rnd, conc, n, depth):
     for _ in range(n):
         ops = []
         for _ in range(depth):
-            if rnd.random() < 0.25:
+            if rnd.random() < 0.08 and ASSIGN.get(kind):
+                ops.append(("A", rnd.randrange(len(ASSIGN[kind])), rnd.choice(["2020", "2021"])))
+            elif rnd.random() < 0.25:
                 ops.append(("W", rnd.randrange(3), rnd.choice("12")))
             else:
                 ops.append(("R", rnd.choice(chains), rnd.choice(READ_HOWS)))
@@ -274,8 +291,8 @@ def run(ctx):
     events = []
     steps = 0
     for kind, conc in CONC.items():
-        jobs = graph_jobs(ctx, rnd, conc, 18 if quick else 200)
-        jobs += walk_jobs(rnd, conc, 12 if quick else 150, 25 if quick else 40)
+        jobs = graph_jobs(ctx, rnd, conc, 18 if quick else 200, kind)
+        jobs += walk_jobs(rnd, conc, 12 if quick else 150, 25 if quick else 40, kind)
         for version in versions:
             for strict in (False, True):
                 chunks = [(kind, version, strict, jobs[k::16]) for k in range(16)]
